@@ -138,7 +138,12 @@ def validate_views(ck):
                     return False, cases, f"unknown operator {op!r} in the pinned table"
                 cases += 1
                 with np.errstate(all="ignore"):
-                    got, want = getattr(view, method)(other), pyops[op](plain, other)
+                    want = pyops[op](plain, other)
+                    try:
+                        got = getattr(view, method)(other)
+                    except Exception as e:
+                        return False, cases, (f"{type(view).__name__}.{method}({other!r:.40}) on {vname} raised {type(e).__name__}: {str(e)[:120]}; numpy on the "
+                                              f"materialised values gives {np.asarray(want).tolist()[:4]}")
                 if not same(got, want):
                     return False, cases, f"{type(view).__name__}.{method}({other!r:.40}): code gives {np.asarray(got).tolist()[:4]}, pinned table says operator {op}: {np.asarray(want).tolist()[:4]}"
         for method, name in tables.get("minmax", []):
